@@ -77,6 +77,12 @@ func encodeXterm(key vaxis.Key, deckpam bool, decckm bool) string {
 				return buf.String()
 			}
 			switch key.Keycode {
+			case ' ':
+				buf.WriteRune(0x00)
+			case '/':
+				buf.WriteRune(0x1f)
+			case '?':
+				buf.WriteRune(0x7f)
 			case '1':
 				buf.WriteRune('1')
 			case '2':
